@@ -1,5 +1,6 @@
 import MgpuProofs.C09Res
-import MgpuModel.C09_Disp
+import MgpuProofs.C09Pool
+import MgpuProofs.C09Once2
 /-! # C09 — work-groups are dispatched exactly once within compute-unit resources
 
 Statements about the models in `MgpuModel/C09_Res.lean` (resource masks and one CU's
@@ -123,5 +124,134 @@ theorem byte_offsets_disjoint' :
     simpa [shippedLDS, lGran] using this
 
 example : units 102 sGran = 7 ∧ units 0 vGran = 0 ∧ units 257 lGran = 2 := by decide
+
+/-! ## the command processor: N dispatchers on one pool -/
+
+/-- a pool of two small CUs and a scenario with two overlapping kernels (3 + 1 work-groups),
+    back-pressure on the CU-facing port, completions out of order and one batched completion
+    message `[3, 0]` that mixes work-groups of both dispatchers -/
+def demoPool : List CU := [demoCU, demoCU]
+
+def demoOps : List Op :=
+  [.launch ⟨0, 160, 64, 16, 4, 256⟩, .launch ⟨1, 64, 64, 32, 8, 512⟩, .tick, .cuRoom 1, .tick, .tick,
+   .cuRoom 4096, .tick, .complete [1], .tick, .complete [3, 0], .tick, .tick, .complete [2], .tick, .tick,
+   .tick, .tick, .tick]
+
+def demoCfg : Cfg := { greedy := false, klo := 0, ko := 1, sklo := 0, thr := 0 }
+
+/-- **Every work-group of a well-formed grid has a wavefront** (what `reserve_inv'` asks for). -/
+theorem every_group_has_a_wavefront (k : Kern) (i : Nat) (hk : KernOK k) (hi : i < k.numWG) :
+    1 ≤ k.nwfOf i := nwf_pos k i hk hi
+
+example : KernOK ⟨0, 160, 64, 16, 4, 256⟩ ∧ (⟨0, 160, 64, 16, 4, 256⟩ : Kern).numWG = 3 ∧
+    (⟨0, 160, 64, 16, 4, 256⟩ : Kern).nwfOf 2 = 1 := ⟨⟨by decide, by decide⟩, by decide, by decide⟩
+
+/-- **`multi_dispatcher_safe`.** For any number of dispatchers sharing one pool (round-robin or
+    greedy placement), any overheads, and **any** interleaving of ticks, launch requests,
+    completion messages (single, batched, mixing dispatchers, unknown ids, any order and delay)
+    and port back-pressure: every CU of the pool keeps the resource invariant `Inv` — resident
+    regions pairwise disjoint and inside capacity, masks agree with them, wavefront slots add
+    up — and no work-group is ever reserved twice (the Go `panic("reserving a work-group
+    twice")` is unreachable). Pool initially without residents; launches with non-empty grid and
+    work-group size. -/
+theorem multi_dispatcher_safe' (caps : List (List Nat)) (cfg : Cfg) (nd : Nat) (pool : List CU)
+    (ops : List Op) (hempty : ∀ cu ∈ pool, cu.resident = []) (hp : PoolInv caps pool)
+    (hops : ∀ k, .launch k ∈ ops → KernOK k) :
+    let cp := run (mkCP cfg nd pool) ops
+    PoolInv caps cp.pool ∧ cp.fault ≠ some "twice" :=
+  multi_dispatcher_safe caps cfg nd pool ops hempty hp hops
+
+example : let cp := run (mkCP demoCfg 8 demoPool) demoOps
+    cp.fault = none ∧ cp.pool.map (·.resident.length) = [0, 0] ∧
+    cp.log.reverse.map (fun e => match e with | .map r c l i _ => (r, c, l, i) | .rsp l => (99, 99, l, 99)) =
+      [(0, 0, 0, 0), (1, 1, 0, 1), (2, 0, 0, 2), (3, 0, 1, 0), (99, 99, 1, 99), (99, 99, 0, 99)] := by
+  decide
+
+/-- **A MapWGReq is only sent for reserved resources.** Whenever the placement algorithm of a
+    dispatcher returns a location, the work-group is resident on that CU of the shared pool with
+    exactly the wavefront locations the MapWGReq will carry (and by `reserve_ok_only_if_free`
+    those regions were free and a wavefront slot was available). `dispatchNextWG` sends the
+    location stored in `currWG`, which only `algNext` writes. -/
+theorem mapped_only_when_admitted (b : Bool) (caps : List (List Nat)) (cp : CP) (i : Nat) (cp' : CP)
+    (dl : DLoc) (h : CPInv b caps cp) (hft : cp.fault ≠ some "twice")
+    (hn : (cp.disp i).alg.hasNext = true) (ha : algNext cp i = (cp', some dl)) :
+    ∃ d, (dl.key, d, dl.locs) ∈ (cp'.pool.getD dl.cu default).resident :=
+  mapped_is_resident b caps cp i cp' dl h hft hn ha
+
+example : ((algNext ((run (mkCP demoCfg 8 demoPool) [.launch ⟨0, 160, 64, 16, 4, 256⟩, .tick])) 0).2.map
+    fun dl => (dl.cu, dl.idx, dl.locs)) = some (0, 0, [⟨0, 0, 0, 0⟩]) := by decide
+
+/-! ## exactly once -/
+
+/-- **The accounting invariant `DCI` holds after every op sequence** (no side condition: any
+    number of dispatchers, any pool, greedy or round-robin, any completion messages — foreign,
+    duplicated, batched —, any back-pressure, faults included). Per dispatcher: idle ⇒ nothing
+    placed or in flight; busy with `k` ⇒ `dispatched + [a placed, unsent group] = placed ≤ NumWG`,
+    `completed + in flight = dispatched`, the placed group is work-group number `dispatched` of
+    launch `k`, in-flight request ids are distinct and below the id counter. -/
+theorem accounting_inv (cfg : Cfg) (nd : Nat) (pool : List CU) (ops : List Op) :
+    DCI (run (mkCP cfg nd pool) ops) := dci_run cfg nd pool ops
+
+example : DCI (run (mkCP demoCfg 8 demoPool) demoOps) := accounting_inv _ _ _ _
+
+/-- **`exactly_once` (maps, trace form).** With pairwise distinct launch request ids (the
+    driver's ids are unique), along every op sequence no work-group index of any launch occurs in
+    two `MapWGReq`s of the whole trace. -/
+theorem exactly_once_maps (cfg : Cfg) (nd : Nat) (pool : List CU) (ops : List Op)
+    (hids : (launchIds ops).Nodup) (l : Nat) : (mapsOf (run (mkCP cfg nd pool) ops).log l).Nodup :=
+  map_exactly_once cfg nd pool ops hids l
+
+example : mapsOf (run (mkCP demoCfg 8 demoPool) demoOps).log 0 = [0, 1, 2] ∧
+    mapsOf (run (mkCP demoCfg 8 demoPool) demoOps).log 1 = [0] := by decide
+
+/-- **`exactly_once` (maps, step form).** Whenever a dispatcher busy with launch `k` sends a
+    `MapWGReq`, it is for launch `k`, for work-group index = the number it has mapped so far,
+    which is inside the grid (`< NumWG`), with a fresh request id, and the counter moves by one;
+    a failed attempt emits nothing. Hence the indices of one kernel execution are mapped in grid
+    order, each once, never outside the grid. -/
+theorem maps_in_grid_order (cp : CP) (i : Nat) (k : Kern) (h : DCI cp) (hi : i < cp.disps.length)
+    (hk : (cp.disp i).kern = some k) :
+    ((dispatchNextWG cp i).2 = true → ∃ cu locs,
+      (dispatchNextWG cp i).1.log = .map cp.nextReq cu k.id (cp.disp i).nd locs :: cp.log ∧
+      (cp.disp i).nd < k.numWG ∧ ((dispatchNextWG cp i).1.disp i).nd = (cp.disp i).nd + 1 ∧
+      (dispatchNextWG cp i).1.nextReq = cp.nextReq + 1) ∧
+    ((dispatchNextWG cp i).2 = false → (dispatchNextWG cp i).1.log = cp.log) :=
+  map_in_grid_order cp i k h hi hk
+
+/-- **`LaunchKernelRsp` at most once per launch** along every op sequence (distinct launch ids). -/
+theorem response_at_most_once (cfg : Cfg) (nd : Nat) (pool : List CU) (ops : List Op)
+    (hids : (launchIds ops).Nodup) (l : Nat) : rspCount (run (mkCP cfg nd pool) ops).log l ≤ 1 :=
+  rsp_at_most_once cfg nd pool ops hids l
+
+example : rspCount (run (mkCP demoCfg 8 demoPool) demoOps).log 0 = 1 ∧
+    rspCount (run (mkCP demoCfg 8 demoPool) demoOps).log 1 = 1 := by decide
+
+/-- **… and only when completed = dispatched = NumWG.** In every reachable state (`DCI`), the
+    condition under which `Tick` calls `completeKernel` implies that every work-group of the grid
+    has been dispatched and completed and nothing is placed or in flight; `completeKernel` is the
+    only place a response is emitted: it emits exactly `LaunchKernelRsp` for the dispatcher's
+    launch and makes the dispatcher idle, or (driver-facing port full) changes nothing. -/
+theorem response_only_when_complete (cp : CP) (i : Nat) (k : Kern) (h : DCI cp)
+    (hi : i < cp.disps.length) (hk : (cp.disp i).kern = some k) :
+    (kernelCompleted (cp.disp i) = true →
+      (cp.disp i).nd = k.numWG ∧ (cp.disp i).nc = k.numWG ∧ (cp.disp i).inflight = [] ∧
+      (cp.disp i).currWG = none) ∧
+    (∀ cp', completeKernel cp i = (cp', true) → cp'.log = .rsp k.id :: cp.log ∧ (cp'.disp i).kern = none) ∧
+    (∀ cp', completeKernel cp i = (cp', false) → cp' = cp) :=
+  ⟨fun hkc => rsp_only_when_complete cp i k h hk hkc,
+   fun cp' hc => completeKernel_log cp i k cp' hi hk hc,
+   fun cp' hc => completeKernel_false cp i cp' hc⟩
+
+/-- **A completion is counted once.** Processing a request id that is in flight at this
+    dispatcher raises `completed` by exactly one and removes exactly that entry; an id that is not
+    in flight here (foreign, duplicate, unknown) changes nothing. -/
+theorem completion_counted_once' (cp : CP) (i id : Nat) (h : DCI cp) (hi : i < cp.disps.length) :
+    ((cp.disp i).inflight.find? (·.1 = id) = none → completeOne cp i id = cp) ∧
+    (∀ e, (cp.disp i).inflight.find? (·.1 = id) = some e →
+      ((completeOne cp i id).disp i).nc = (cp.disp i).nc + 1 ∧
+      ((completeOne cp i id).disp i).inflight.length + 1 = (cp.disp i).inflight.length ∧
+      (∀ e' ∈ ((completeOne cp i id).disp i).inflight, e'.1 ≠ id) ∧
+      DCI (completeOne cp i id)) :=
+  completion_counted_once cp i id h hi
 
 end C09
